@@ -111,6 +111,16 @@ def search(pid, ob, seed):
             if jitter_bad(pid, ob, call, res):
                 return dict(kind='jitter_timer_script', call=call, rounds=rounds, base=base, deltas=deltas, observed=res,
                             explanation='scripted timer: reading k returns base + sum of the first k deltas (cyclic); real rand_jitter code, dev profile')
+        # differential search: the real code against the executable twin of the specification on the same scripted timers
+        import time as _t
+        t0 = _t.time()
+        for call, rounds, base, deltas in jitter_diff_candidates(seed, pid):
+            if _t.time() - t0 > 90:
+                break
+            res = run_replay(['jitter', call, rounds, base, ','.join(str(d) for d in deltas)])
+            if 'MISMATCH' in res:
+                return dict(kind='jitter_timer_script', call=call, rounds=rounds, base=base, deltas=deltas, observed=res, expect='agree',
+                            explanation='differential run: real rand_jitter (dev profile) vs. the executable twin of the specification on the same scripted timer')
     return None
 
 
@@ -188,6 +198,21 @@ def jitter_diff_candidates(seed, prop):
         n = rnd.choice([3, 5, 8])
         scripts.append((rnd.getrandbits(rnd.choice([10, 40, 63])) | 1, [rnd.choice([1, 2, 9, 100, 4096, rnd.getrandbits(rnd.choice([5, 20, 31, 33])) | 1]) for _ in range(n)]))
     out = []
+    if 'test_timer' in seqs:
+        # an otherwise healthy clock (1 + 4 * 400 readings, odd steps 1001..5095) with ONE glitch: frozen during one probe
+        # (warm-up probes included: the per-probe sanity checks apply to all 400), or not yet started at the first readings
+        def healthy():
+            r2 = random.Random(seed + 99)
+            return [1001 + 2 * r2.randrange(2048) for _ in range(1700)]
+        for p_ in (0, 50, 99, 100, 250, 399):
+            d = healthy()
+            d[1 + 4 * p_] = d[2 + 4 * p_] = d[3 + 4 * p_] = 0
+            out.append(('diff:test_timer', 0, 1000, d))
+        d = healthy(); d[0] = 0
+        out.append(('diff:test_timer', 0, 0, d))
+        d = healthy(); d[0] = d[1] = d[2] = d[3] = 0
+        out.append(('diff:test_timer', 0, 0, d))
+        out.append(('diff:test_timer', 0, 1000, healthy()))
     for sq in seqs:
         for base, deltas in scripts:
             for rounds in ((1, 3) if sq != 'test_timer' else (0,)):
